@@ -202,7 +202,7 @@ class _FinallyCtx(_Ctx):
         self._via(
             key,
             fr,
-            lambda out: self.outer.do_raise(out, None, implicit),
+            lambda out: self.outer.do_raise(out, "<finally>", implicit),
             label="exc",
             implicit=implicit,
             exc_type=exc_type,
